@@ -621,7 +621,9 @@ def _check_r5(ctx, u, lab, m, ln, dn, calls):
     mt = [x for x in walk(body_of(er)) if x.get('kind') == 'IfStmt' and any(c.get('kind') == 'CXXMemberCallExpr' and call_name(c) == 'delete_node' for c in walk(if_parts(x)[1]))]
     okm = len(mt) == 1 and nf(if_parts(mt[0])[0]) in ('((n.pt == pt) && (n.value == v))', '((n.value == v) && (n.pt == pt))') and not falls_through(if_parts(mt[0])[1])
     dcalls = [c for c in walk(body_of(er)) if c.get('kind') == 'CXXMemberCallExpr' and call_name(c) == 'delete_node']
-    match_in_loop_cond = any(lp2.get('kind') in ('WhileStmt', 'ForStmt') and any(y.get('kind') == 'MemberExpr' and y.get('name') in ('pt', 'value') for y in walk((while_parts(lp2)[0] if lp2.get('kind') == 'WhileStmt' else for_parts(lp2)[2]) or {})) for lp2 in walk(body_of(er)))
+    # (the descent may only stop at a node whose point AND value match: a loop condition that looks at the
+    # point alone stops at the first duplicate point, which is the defect this rule reports)
+    match_in_loop_cond = any(lp2.get('kind') in ('WhileStmt', 'ForStmt') and {'pt', 'value'} <= {y.get('name') for y in walk((while_parts(lp2)[0] if lp2.get('kind') == 'WhileStmt' else for_parts(lp2)[2]) or {}) if y.get('kind') == 'MemberExpr'} for lp2 in walk(body_of(er)))
     if not inside and not mt and dcalls and match_in_loop_cond:
         ctx.undecided(R, lab + '|erase|whole-descent', er, 'the match test is part of the descent loop\'s condition and delete_node follows the loop: the exit-condition reasoning this needs is not modelled')
     else:
